@@ -273,6 +273,22 @@ func judgeStrFn(c StrFnCase) *eng.Fail {
 			}
 		}
 		outcome("nested")
+	case "computed-count":
+		// an integer that reaches a count / position parameter as the result of arithmetic (10 may be held
+		// as 1E+1, 1.0E+1, 10.00 ...) counts like the plain literal
+		expr, plain := t, u
+		src := "[left(s, " + expr + ") === left(s, " + plain + "), right(s, " + expr + ") === right(s, " + plain + "), mid(s, 1, " + expr + ") === mid(s, 1, " + plain + "), mid(s, " + expr + ", 24) === mid(s, " + plain + ", 24), lpad('z', '-', " + expr + ") === lpad('z', '-', " + plain + "), rpad('z', '-', " + expr + ") === rpad('z', '-', " + plain + "), len(left(s, " + expr + ")) === " + plain + ", " + expr + " === " + plain + "]"
+		v, f := ev(src)
+		if f != nil {
+			return f
+		}
+		a := v.([]interface{})
+		for k, name := range []string{"left", "right", "mid (end)", "mid (start)", "lpad", "rpad", "len(left)", "the number itself"} {
+			if a[k] != interface{}(true) {
+				return fail(name+" with the count written "+expr+" and written "+plain, a[k], true)
+			}
+		}
+		outcome("computed-count " + plain)
 	case "leftright":
 		// in-range n
 		v, f := ev("[left(s,i), right(s,i), left(s,i) + right(s,len(s)-i) == s, startWith(s,left(s,i)), endWith(s,right(s,i)), len(s)]")
@@ -529,6 +545,13 @@ func runC17(w *eng.W) {
 			emit(StrFnCase{Fn: "regexp", S: Bytes(s), T: Bytes(p)})
 		}
 		emit(StrFnCase{Fn: "maptoarr", S: Bytes(s), T: Bytes("zz")})
+	}
+	long := "abcdefghijklmnopqrstuvwxyz0123"
+	for _, pr := range [][2]string{{"20/2", "10"}, {"100/10", "10"}, {"1e1", "10"}, {"toInt('1e1')", "10"}, {"ceil(9.5)", "10"}, {"len(s)/3", "10"}, {"2e1/2", "10"}, {"1e1 + 0", "10"}, {"5 * 2", "10"}, {"10.00", "10"}, {"1.0e1", "10"},
+		{"200/10", "20"}, {"2e1", "20"}, {"0.2e2", "20"}, {"round(19.5)", "20"}, {"floor(20.9)", "20"}, {"1e2/5", "20"}, {"max(3, 2e1)", "20"}, {"3e1 - 1e1", "20"}, {"1e0", "1"}, {"10/10", "1"}, {"toInt(12.9)", "12"}, {"abs(-12)", "12"}} {
+		if w.Take() {
+			emit(StrFnCase{Fn: "computed-count", S: Bytes(long), T: Bytes(pr[0]), U: Bytes(pr[1])})
+		}
 	}
 	for _, s := range []string{"éÉ", "αΑβ", "дДж", "MiXeD é Α д", "ÜBER"} {
 		if w.Take() {
